@@ -257,8 +257,12 @@ class _Marshaller:
         self._write(TYPE_UNICODE)
         if not PYTHON3 and self.python_version < (3, 0):
             s = x.encode("utf8")
-        else:
+        elif isinstance(x, bytes):
             s = x
+        else:
+            # The payload is UTF-8 (with lone surrogates passed through, as
+            # marshal.c does), and its length is counted in bytes.
+            s = x.encode("utf-8", "surrogatepass")
         self.w_long(len(s))
         self._write(s)
 
@@ -592,7 +596,10 @@ class _Unmarshaller:
     def load_unicode(self):
         n = self.r_long()
         s = self._read(n)
-        ret = s.decode("utf8")
+        if PYTHON3:
+            ret = s.decode("utf8", "surrogatepass")
+        else:
+            ret = s.decode("utf8")
         return ret
 
     dispatch[TYPE_UNICODE] = load_unicode
@@ -919,7 +926,10 @@ class _FastUnmarshaller:
     def load_unicode(self):
         n = _r_long(self)
         s = _read(self, n)
-        ret = s.decode("utf8")
+        if PYTHON3:
+            ret = s.decode("utf8", "surrogatepass")
+        else:
+            ret = s.decode("utf8")
         return ret
 
     dispatch[TYPE_UNICODE] = load_unicode
